@@ -11,6 +11,9 @@ PAIRS = [  # (using unit, fn as it appears there, verifying unit, fn there, clau
     ('stage1', r'from~\s*s: &str,\s*is_capturing_group_enabled', 'repeats', r'from~\s*s: &str,\s*is_capturing_group_enabled', ['r.is_capturing_group_enabled == is_capturing_group_enabled && r.is_output_colorized == is_output_colorized && r.is_verbose_mode_enabled == is_verbose_mode_enabled']),   # the flags clause: next pair
     ('stage1', r'from~\s*s: &str,\s*is_capturing_group_enabled', 'rep', r'from~\s*s: &str,\s*is_capturing_group_enabled', ['plain(r) && r.chars@[0]@ == s@']),
     ('matrix', r'new~\s*grapheme: Grapheme', 'expr', r'new~\s*grapheme: Grapheme', []),
+    ('stage1', r'from~\s*s: &str,\s*config', 'clusterfrom', r'from~\s*s: &str,\s*config', ['r.graphemes@ == segments(s@, *config)', 'r.graphemes@.len() < 0x1_0000_0000']),   # a name for the result; a machine bound (fewer than 2^32 graphemes per test case)
+    ('clusterfrom', r'from~\s*s: &str,\s*is_capturing_group_enabled', 'repeats', r'from~\s*s: &str,\s*is_capturing_group_enabled', ['r.is_capturing_group_enabled == is_capturing_group_enabled && r.is_output_colorized == is_output_colorized && r.is_verbose_mode_enabled == is_verbose_mode_enabled']),
+    ('clusterfrom', r'from~\s*s: &str,\s*is_capturing_group_enabled', 'rep', r'from~\s*s: &str,\s*is_capturing_group_enabled', ['plain(r) && r.chars@[0]@ == s@']),
     ('stage1', 'is_char_class_feature_enabled', 'gates', 'is_char_class_feature_enabled', ['r == conversion_runs(*self)']),     # naming the answer of a pure function of the settings
 ]
 def _norm(s): return re.sub(r'\s+', ' ', re.sub(r'/\*.*?\*/', '', s)).strip().rstrip(',').strip()
